@@ -442,6 +442,14 @@ def add_value_variants(g, gx):
         sp["type"] = [A.Typename(None, ["_Atomic"], None, arr, co(m))]
         return sp
 
+    def spec_atomic_func(m):
+        # `_Atomic(int (*)(char))`: a function derivation inside the type name (every declarator gets its own copy of it)
+        sp = new_spec()
+        prm = A.Typename(None, [], None, A.TypeDecl(None, [], None, A.IdentifierType(["char"], co(m)), None), co(m))
+        fn = A.FuncDecl(A.ParamList([prm], co(m)), A.TypeDecl(None, [], None, A.IdentifierType(["int"], co(m)), None), co(m))
+        sp["type"] = [A.Typename(None, ["_Atomic"], None, A.PtrDecl([], fn, co(m)), co(m))]
+        return sp
+
     def spec_two(m):
         sp = new_spec()
         sp["type"] = [A.IdentifierType(["unsigned"], co(m)), A.IdentifierType(["long"], co(m))]
@@ -457,7 +465,8 @@ def add_value_variants(g, gx):
                                                       lambda gx, m: (spec_atomic(m), True, co(m)), lambda gx, m: (spec_two(m), True, co(m)),
                                                       lambda gx, m: (spec_extern(m), True, co(m)),
                                                       lambda gx, m: (spec_atomic_plain(m), True, co(m)),
-                                                      lambda gx, m: (spec_atomic_array(m), True, co(m))]
+                                                      lambda gx, m: (spec_atomic_array(m), True, co(m)),
+                                                      lambda gx, m: (spec_atomic_func(m), True, co(m))]
     # declarators: a plain name / a pointer to it (Decl.coord then differs from the coordinate of the name)
     def ptr_info(m):
         return dict(decl=A.PtrDecl(["const"], A.TypeDecl(f"d{m.mid}", None, None, None, co(m)), gx.Coord("f.c", 950 + m.mid, 1)),
@@ -502,4 +511,4 @@ def add_value_variants(g, gx):
         return sp
     g.nts["specifier-qualifier-list"].value_variants = [lambda gx, m: spec_int(m), lambda gx, m: spec_atomic(m), lambda gx, m: spec_two(m),
                                                         lambda gx, m: spec_align_only(m), lambda gx, m: spec_atomic_plain(m),
-                                                        lambda gx, m: spec_atomic_array(m)]
+                                                        lambda gx, m: spec_atomic_array(m), lambda gx, m: spec_atomic_func(m)]
